@@ -39,7 +39,7 @@ var leafForms = []string{"get", "arrow", "group", "block", "if", "match", "try"}
 // static type: a local let, a global let (constant initialisers only: `none`, `[]`, literals of
 // them — every carried value is typed and must be admitted unchanged), and the neighbours of the
 // let, which are a tagged poisoned workload while KF-c12-optany-flow is open (c12.go).
-var letxStmts = []string{"let", "global", "assign", "arg", "ret"}
+var letxStmts = []string{"let", "global", "as", "assign", "arg", "ret"}
 
 type dynBuilder struct {
 	form  string
@@ -181,7 +181,7 @@ func letxTop(t vu.Type) string {
 
 // letxCarries reports whether (v, T) can be written on route letx with the given statement kind.
 func letxCarries(stmt string, t vu.Type, v vu.Val) bool {
-	if stmt != "" && stmt != "let" && stmt != "global" && t.K != vu.TOpt {
+	if stmt != "" && stmt != "let" && stmt != "global" && stmt != "as" && t.K != vu.TOpt {
 		// outside a let initialiser a composite literal with ?any parts is refused by the analyzer
 		return false
 	}
@@ -206,6 +206,13 @@ func LetxSource(stmt, form string, t vu.Type, v vu.Val) (string, bool) {
 	switch stmt {
 	case "", "let":
 		crossing = fmt.Sprintf("let x: %s = %s;", t.Src(), expr)
+	case "as":
+		// the base of the cast is the composite expression itself: its static type has the outer kind of
+		// T and says `any` inside (`?any`, `[?any]`, `{ a: ?any, … }`)
+		if t.K == vu.TOpt && (form == "if" || form == "match" || form == "try" || form == "block") {
+			expr = "(" + expr + ")"
+		}
+		crossing = fmt.Sprintf("let x = %s as %s;", expr, t.Src())
 	case "assign":
 		crossing = fmt.Sprintf("let x: %s = none;\n        x = %s;", t.Src(), expr)
 	case "arg":
